@@ -31,6 +31,7 @@ def run(chk: Check) -> None:
     ix = get_index()
     run_only_once_slot(chk, ix)
     run_plugin_identity(chk, ix)
+    run_shared_memo_keys(chk, ix)
     R = Resolver(ix)
     r1 = chk.rule("R10.1", "every iteration over a set/frozenset is either consumed order-insensitively (recognised structurally) or tabled with a reason; an untabled order-sensitive use is a violation", floor=80)
     n_sites = 0
@@ -515,3 +516,10 @@ def run_plugin_identity(chk: Check, ix) -> None:
         r5.ok(key, f.loc(guards[0]))
     else:
         r5.violation(key, f.loc(imps[0]), "import_module(<bare name>) returns whatever sys.modules holds under that name: a plugin file with the same name from another directory, loaded by an earlier build in this process")
+
+
+def run_shared_memo_keys(chk: Check, ix) -> None:
+    """R10.6: a process-wide memo shared by all modules of a build is only ever asked with the key of the current query."""
+    from .c08 import memo_call_sites_agree
+    r6 = chk.rule("R10.6", "the subtype caches in TypeState outlive a module and are shared by all modules of a build; their key (SubtypeVisitor._subtype_kind) contains the per-module inputs of the answer (state.strict_optional and the context flags, decided by R08.1). Every lookup and every record in SubtypeVisitor.visit_instance uses that key and nothing else: a lookup under another module's key hands one module an answer computed for another, and which answers exist depends on the order in which the files were given", floor=1)
+    memo_call_sites_agree(r6, ix)
